@@ -130,7 +130,8 @@ Proof.
       exfalso. clear - Eo. rewrite open_wal_unfold in Eo.
       destruct (_ && _); [discriminate|].
       destruct (if dk_inited (e_disk (ss_env s)) then (true, ss_env s) else io AInitMeta (ss_env s)) as [ok0 e0].
-      destruct (negb ok0); [discriminate|]. unfold open_rest in Eo.
+      destruct (negb ok0); [discriminate|].
+      destruct (armed e0 && fx_list (e_fx e0)); [discriminate|]. unfold open_rest in Eo.
       destruct (open_segs _ _ _ _) as [[[r segs] tail] e1] eqn:Es. destruct r.
       * destruct tail; [discriminate|]. unfold open_newtail in Eo. cbn zeta in Eo.
         destruct (io _ e1) as [ok1 e2]. destruct (negb ok1); [discriminate|].
